@@ -116,3 +116,26 @@ impl HeaderMap {
         self.inner.remove(hash)
     }
 }
+
+/// verification-harness hooks (feature `verif-hooks`): deterministic spill placement.
+#[cfg(feature = "verif-hooks")]
+impl HeaderMap {
+    /// Same kernel as `new`, with the limit given in items and without the background timer task,
+    /// so that the only spills are the ones requested through `verif_limit_memory`.
+    pub fn verif_new_without_timer<P>(
+        tmpdir: Option<P>,
+        size_limit_items: usize,
+        ibd_finished: Arc<AtomicBool>,
+    ) -> Self
+    where
+        P: AsRef<path::Path>,
+    {
+        let inner = Arc::new(HeaderMapKernel::new(tmpdir, size_limit_items, ibd_finished));
+        Self { inner }
+    }
+
+    /// Synchronous call of the private, timer-driven `limit_memory`.
+    pub fn verif_limit_memory(&self) {
+        self.inner.limit_memory()
+    }
+}
